@@ -630,6 +630,10 @@ func (e *env) call(x *spec.Call) sval {
 			}
 		}
 		return e.fail("bytes() of %s", x.Args[0])
+	case "idx":
+		// idx(o, i) = o + i as the function symbol slice element accesses are written with (so that quantifier patterns match)
+		a, b := e.tr(x.Args[0]), e.tr(x.Args[1])
+		return sval{t: fmt.Sprintf("(idx %s %s)", a.t, b.t), sort: "Int", gt: types.Typ[types.Int]}
 	case "elems", "off":
 		// elems(s): the contents of the backing array of slice s in the current heap, as a mathematical array (a snapshot
 		// that heap-free recursive spec functions can take as an argument); off(s): the offset of s[0] in it
@@ -646,7 +650,7 @@ func (e *env) call(x *spec.Call) sval {
 		}
 		es := c.S.SortOf(sl.Elem())
 		h := c.region(e.st, c.elemKey(sl.Elem()), c.elemSort(es))
-		return sval{t: fmt.Sprintf("(select %s (sbase %s))", h, v.t), sort: "(Array Int " + es + ")"}
+		return sval{t: fmt.Sprintf("(select %s (sbase %s))", h, v.t), sort: "(Array Int " + es + ")", gt: types.NewArray(sl.Elem(), 0)}
 	case "seen":
 		// seen(m, k): the running `range m` loop has already produced key k
 		m, k := e.tr(x.Args[0]), e.tr(x.Args[1])
